@@ -27,7 +27,7 @@ type fsObs struct {
 	SecondRun string            `json:"second_run"`
 }
 
-var osCallRe = regexp.MustCompile(`\bos\.(MkdirAll|CreateTemp|Chmod|Rename|Remove|WriteFile|Create)\(`)
+var osCallRe = regexp.MustCompile(`\bos\.(MkdirAll|CreateTemp|OpenFile|Chmod|Rename|Remove|WriteFile|Create)\(`)
 
 // prepareFSReplay routes install.go's os calls through the shim (mechanical
 // rewrite of the current source in the scratch copy).
@@ -160,6 +160,15 @@ func checkC15(c *Ctx) error {
 		errNil       bool
 	}
 	var valPoints []valPoint
+	// states left behind by crashed or failed runs (agent 0), to be followed by a later run
+	type leftover struct {
+		files        map[string]symx.FSNode
+		when, after  string
+		crash, fault int
+		short, prior bool
+		dirs         bool
+	}
+	leftovers := map[string]*leftover{}
 	for _, ai := range agents {
 		for baseState := 0; baseState <= 2; baseState++ {
 			// 0: base absent, 1: base directory exists, 2: base holds a previous installation
@@ -276,6 +285,22 @@ func checkC15(c *Ctx) error {
 				default:
 					c.Inconclusive(fmt.Sprintf("agent %d base-state %d: path outcome %s", ai, baseState, r.Outcome))
 				}
+				if ai == 0 && (m.Crashed || m.Faulted >= 0) {
+					snap := m.Snapshot()
+					var keys []string
+					for k, n := range snap {
+						keys = append(keys, fmt.Sprintf("%s=%s/%o", k, n.Content, n.Mode))
+					}
+					sort.Strings(keys)
+					key := strings.Join(keys, ";")
+					if _, ok := leftovers[key]; !ok {
+						when := "error"
+						if m.Crashed {
+							when = "crash"
+						}
+						leftovers[key] = &leftover{files: snap, when: when, after: lastOp, crash: cur.crash, fault: cur.fault, short: cur.short, prior: prior, dirs: len(m.Dirs) > 0 || baseClass == 1}
+					}
+				}
 				// sample of model paths to be compared with native runs (translator validation)
 				if ai == 0 && baseClass == 0 && !prior && (paths%29 == 3 || (!m.Crashed && m.Faulted < 0)) && len(valPoints) < 8 {
 					vp := valPoint{crash: cur.crash, fault: cur.fault, short: cur.short, dest: map[string]string{}}
@@ -311,6 +336,57 @@ func checkC15(c *Ctx) error {
 			_ = results
 		}
 	}
+	// --- a later fault-free run completes the installation from every state left behind ----
+	laterRuns := 0
+	var lkeys []string
+	for k := range leftovers {
+		lkeys = append(lkeys, k)
+	}
+	sort.Strings(lkeys)
+	for _, lk := range lkeys {
+		lo := leftovers[lk]
+		k.E.Run(fn, func(ps *symx.PathState) []any {
+			m := symx.NewFSModel(ps, "trace", srcRoot)
+			m.BaseClass = 0
+			if lo.dirs {
+				m.BaseClass = 1
+			}
+			m.Cwd, m.Home = "/cwd", "/home/u"
+			for p, n := range lo.files {
+				m.SetPriorNode(p, n)
+			}
+			ps.User = m
+			return []any{symx.IntArg(0), base, false}
+		}, func(ps *symx.PathState, r *symx.PathResult) {
+			m := ps.User.(*symx.FSModel)
+			laterRuns++
+			oblig++
+			cur.crash, cur.fault, cur.short, cur.prior = lo.crash, lo.fault, lo.short, lo.prior
+			bad := ""
+			switch {
+			case !strings.HasPrefix(r.Outcome, "ok"):
+				c.Inconclusive("later run: path outcome " + r.Outcome)
+				return
+			case !symx.IsNilIface(symx.TupleAt(r.Ret, 1)):
+				bad = "the later run fails: " + symx.ErrID(symx.TupleAt(r.Ret, 1))
+			default:
+				for _, rel := range tree.rel {
+					n := m.Effective(filepath.Join(base, "kessoku-di", rel))
+					if n == nil || n.Content != "full:"+tree.hash[rel] || n.Mode != 0o644 {
+						bad = "the later run leaves " + rel + " incomplete"
+					}
+				}
+			}
+			if bad != "" {
+				var tr []string
+				for _, ev := range m.Events {
+					tr = append(tr, fmt.Sprintf("%s %v %v %s", ev.Op, ev.Path, ev.Dst, ev.Note))
+				}
+				violation(map[string]string{"kind": "later run does not complete the installation", "first-run": lo.when, "after": lo.after}, map[string]any{"why": bad, "left_behind": lk, "second_run_trace": tr})
+			}
+		})
+	}
+	c.Coverage["later_runs_from_leftover_states"] = laterRuns
 	// --- native replay: confirm counterexamples, validate the filesystem stubs ----
 	if err := prepareFSReplay(k); err != nil {
 		return err
@@ -363,7 +439,7 @@ func checkC15(c *Ctx) error {
 					confirmed = len(o.TempLeft) > 0
 				case "failure not reported":
 					confirmed = p.fault >= 0 && o.ChildExit == 0
-				case "installation incomplete", "fault-free run fails":
+				case "installation incomplete", "fault-free run fails", "later run does not complete the installation":
 					confirmed = o.SecondRun != "complete" || o.ChildExit != 0
 				}
 				p.art["native_observation"] = o
